@@ -1081,8 +1081,9 @@ class Executor:
                 return
         # 3. havoc
         self.stats['havoc'][c0] = self.stats['havoc'].get(c0, 0) + 1
-        st.emit(Ev('CALL', args={'callee': c0, 'args': args}, site=(fr.fn.key, fr.bb)))
+        ev = st.emit(Ev('CALL', args={'callee': c0, 'args': args}, site=(fr.fn.key, fr.bb)))
         res = self.fresh(st, dst_ty, 'hv')
+        ev.res = res
         yield st, res
 
     def call_closure(self, st, clo, args):
